@@ -583,7 +583,61 @@ def ctor_cases(tier):
 # ===========================================================================
 # driver
 
+# ===========================================================================
+# C07 on masks of 10**5 pixels: strokes that leave 0 / 1 / 2 / 5 pixels of a node
+
+def c07_big_case(case):
+    """case = (h, w, leave, value, scale): node 1 fills an h x (w - 3) block of frame 0, node 2 a
+    column next to it, node 3 sits in frame 1; a stroke of `value` covers node 1 except `leave` pixels"""
+    import networkx as nx
+    from funtracks.data_model import SolutionTracks
+    from . import canon, oracles, worlds as W
+    h, w, leave, value, scale = case
+    seg = np.zeros((2, h, w), dtype="int32")
+    seg[0, :, : w - 3] = 1
+    seg[0, :, w - 2] = 2
+    seg[1, 0:2, 0:2] = 3
+    g = nx.DiGraph()
+    g.add_node(1, time=0)
+    g.add_node(2, time=0)
+    g.add_node(3, time=1)
+    g.add_edge(1, 3)
+    tracks = SolutionTracks(g, segmentation=seg, ndim=3, scale=list(scale) if scale else None)
+    cls = f"{'big' if h * w > 1000 else 'toy'}:leave{leave}:value{value}"
+    ys, xs = np.nonzero(seg[0] == 1)
+    ys, xs = ys[leave:], xs[leave:]
+    ev = ("paint", 0, [ys.tolist(), xs.tolist()], value, int(tracks.get_next_track_id()), False, "rest1")
+    before = canon.observe(tracks)  # graph, registered features, array (id counters may move on)
+    out = events.apply_event(tracks, W.world("seg-2d-core"), ev)
+    res = []
+    if out.status != "ok":
+        return [vio("C07", "stroke-refused", f"{out.status} {out.exc!r}", case, "c07big", cls)]
+    exp_nodes = {2, 3} | ({1} if leave else set()) | ({value} if value not in (0,) else set())
+    if set(int(n) for n in tracks.graph.nodes) != exp_nodes:
+        res.append(vio("C07", "nodes-after-stroke", f"nodes {sorted(tracks.graph.nodes)} != {sorted(exp_nodes)}", case, "c07big", cls))
+    for clause, detail in oracles.inv_c07(tracks)[:2]:
+        res.append(vio("C07", clause, detail, case, "c07big", cls))
+    for n in tracks.graph.nodes:
+        a = tracks.get_node_attr(n, "area")
+        px = int((tracks.segmentation == n).sum()) * (float(np.prod(scale[1:])) if scale else 1.0)
+        if a is None or abs(float(a) - px) > 1e-9 * max(1.0, px):
+            res.append(vio("C07", "area-after-stroke", f"node {n}: area {a} for {px} (scaled) pixels", case, "c07big", cls))
+            break
+    if tracks.undo() is not True or canon.observe(tracks) != before:
+        res.append(vio("C07", "undo-does-not-restore", "; ".join(canon.diff(before, canon.observe(tracks))), case, "c07big", cls))
+    return res
+
+
+def c07_big_cases(tier):
+    for h, w in ((4, 6), (320, 330)):
+        for leave in (0, 1, 2, 5):
+            for value in (0, 2, 9):
+                for scale in (None, (1.0, 0.5, 0.5)):
+                    yield (h, w, leave, value, scale)
+
+
 CASE_FNS = {
+    "c07big": c07_big_case,
     "c17": c17_case, "c19u": c19_unique_case, "c19r": c19_relabel_case,
     "c18p": c18_points_case, "c18s": c18_seg_case, "c13": c13_case, "ctor": ctor_case,
 }
